@@ -23,10 +23,69 @@ structure WF (e : Env) : Prop where
   noEmptyName : "" ∉ D0 e
   /-- whenever the in-place edit can be taken, the passed script is a script for the two sorted member
   lists and does not delete and insert one member -/
-  grpScripts : ∀ aN bN, aN ∈ D0 e →
+  grpScripts : ∀ aN bN, aN ∈ D0 e → bN ∈ BNames e →
     (scriptStat (lookupD e.sc.grp (aN, bN))).1 + (scriptStat (lookupD e.sc.grp (aN, bN))).2 ≤ (e.bMembers bN).length →
     scriptOK (e.aMembers aN) (e.bMembers bN) (lookupD e.sc.grp (aN, bN)) 0 0 = true ∧
     ∀ m ∈ inssOf (e.bMembers bN) (lookupD e.sc.grp (aN, bN)), m ∉ delsOf (e.aMembers aN) (lookupD e.sc.grp (aN, bN))
+
+/-- Decidable form of `WF` (evaluated by the driver on every case). -/
+def wfB (e : Env) : Bool :=
+  e.a.groups.all (fun p => decide p.2.Nodup) && e.b.groups.all (fun p => decide p.2.Nodup) &&
+  !(D0 e).contains "" &&
+  (D0 e).all fun aN => (BNames e).all fun bN =>
+    !(decide ((scriptStat (lookupD e.sc.grp (aN, bN))).1 + (scriptStat (lookupD e.sc.grp (aN, bN))).2 ≤ (e.bMembers bN).length)) ||
+    (scriptOK (e.aMembers aN) (e.bMembers bN) (lookupD e.sc.grp (aN, bN)) 0 0 &&
+      (inssOf (e.bMembers bN) (lookupD e.sc.grp (aN, bN))).all fun m =>
+        !(delsOf (e.aMembers aN) (lookupD e.sc.grp (aN, bN))).contains m)
+
+
+/-- Device lines of target lines reference groups of the target (decidable form). -/
+def refsClosedB (e : Env) : Bool :=
+  e.b.acls.all fun a => a.2.all fun l => l.refs.all (BNames e).contains
+
+
+/-- The bodies were split at their `$REF` placeholders: one more part than references. -/
+def RefsMatchBody (ls : List Line) : Prop := ∀ l ∈ ls, l.refs.length + 1 = l.body.length
+
+
+def refsMatchBodyB (ls : List Line) : Bool := ls.all fun l => l.refs.length + 1 == l.body.length
+
+theorem RefsMatchBody.of_check {ls : List Line} (h : refsMatchBodyB ls = true) : RefsMatchBody ls := by
+  intro l hl
+  have := List.all_eq_true.mp h l hl
+  simpa using this
+
+/-- The class K1: device and target bind exactly one access list, at the same place; no routes; the passed
+script of the pair keeps at least one line. -/
+structure K1 (a b : Config) (sc : Scripts) (aAcl bAcl dir intf : Name) : Prop where
+  abind : a.binds = [⟨aAcl, dir, intf⟩]
+  bbind : b.binds = [⟨bAcl, dir, intf⟩]
+  aroutes : a.routes = []
+  broutes : b.routes = []
+  hasEq : (lookupD sc.acl (aAcl, bAcl)).any (·.isEqual) = true
+
+
+/-- The state in which `diffASAACLs` is called in class K1. -/
+def k1Pre (e : Env) (st0 : St) (aAcl bAcl : Name) : St :=
+  ({ st0 with bNeeded := [0], aName := (bAcl, aAcl) :: st0.aName }.hit "acl:incremental").hit
+    (planCheck e { st0 with bNeeded := [0] } aAcl bAcl (lookupD e.sc.acl (aAcl, bAcl)))
+
+
+/-- Decidable form of all hypotheses of the end-to-end theorem of class K1 (counted by the driver). -/
+def k1Check (a b : Config) (sc : Scripts) : Bool :=
+  match a.binds, b.binds with
+  | [x], [y] =>
+    x.dir == y.dir && x.intf == y.intf && a.routes.isEmpty && b.routes.isEmpty &&
+    (lookupD sc.acl (x.acl, y.acl)).any (·.isEqual) &&
+    wfB ⟨a, b, sc⟩ && refsClosedA ⟨a, b, sc⟩ && refsClosedB ⟨a, b, sc⟩ &&
+    decide (a.acls.map (·.1)).Nodup && decide (a.groups.map (·.1)).Nodup &&
+    refsMatchBodyB ((⟨a, b, sc⟩ : Env).aLines x.acl) && refsMatchBodyB ((⟨a, b, sc⟩ : Env).bLines y.acl) &&
+    (a.acls.map (·.1)).contains x.acl &&
+    scriptOK (((⟨a, b, sc⟩ : Env).aLines x.acl).map (·.body)) (((⟨a, b, sc⟩ : Env).bLines y.acl).map (·.body))
+      (lookupD sc.acl (x.acl, y.acl)) 0 0 &&
+    planCheck ⟨a, b, sc⟩ (k1Pre ⟨a, b, sc⟩ (generateNames ⟨a, b, sc⟩ {}) x.acl y.acl) x.acl y.acl
+      (lookupD sc.acl (x.acl, y.acl)) == "hyp:ok"
+  | _, _ => false
 
 structure Sem (e : Env) (st : St) (d : Dev) : Prop where
   mode : ModeRel st d
@@ -237,7 +296,7 @@ theorem findGroup_ready_or_same (e : Env) (st : St) (bN : Name) :
   | adopted aN _ _ _ _ hst => rw [hst]; exact Or.inr List.mem_cons_self
 
 theorem equalizedGroups_gstep (e : Env) (hw : WF e) (st : St) (d : Dev) (h : Sem e st d) (aN bN : Name)
-    (ha : aN ∈ D0 e) :
+    (ha : aN ∈ D0 e) (hb : bN ∈ BNames e) :
     ∃ d', GStep e st d (equalizedGroups e st aN bN).1 d' ∧
       ((equalizedGroups e st aN bN).2 = true →
         bN ∈ (equalizedGroups e st aN bN).1.gReady ∧ (equalizedGroups e st aN bN).1.gNameOf bN = aN) := by
@@ -292,7 +351,7 @@ theorem equalizedGroups_gstep (e : Env) (hw : WF e) (st : St) (d : Dev) (h : Sem
         -- the in-place edit
         have hsmall : (scriptStat (lookupD e.sc.grp (aN, bN))).1 + (scriptStat (lookupD e.sc.grp (aN, bN))).2 ≤ (e.bMembers bN).length := by
           rw [hstat]; simp only; omega
-        obtain ⟨hv, hdisj⟩ := hw.grpScripts aN bN ha hsmall
+        obtain ⟨hv, hdisj⟩ := hw.grpScripts aN bN ha hb hsmall
         have hne : aN ≠ "" := fun e1 => hw.noEmptyName (e1 ▸ ha)
         have hcur : (membersOf d aN).Perm (e.aMembers aN) := by
           rw [h.untouched aN ha hnot']; exact (sortS_perm _).symm
